@@ -74,6 +74,22 @@ def gen_config(rng):
     return groups, exponent
 
 
+def reference_split(power, ids, excl, incl):
+    """The split of one set's share over its inverters as the pinned code does it (greedy in the set's iteration
+    order; an inverter whose exclusion bound exceeds what is left gets 0 and what is left is dropped): this is the
+    behaviour recorded as known finding C01-B."""
+    if len(ids) == 1:
+        return {ids[0]: power}
+    out, rem = {}, power
+    for i in ids:
+        if abs(rem) > 1e-9 and excl[i] <= rem:
+            out[i] = min(incl[i], rem)
+            rem -= out[i]
+        else:
+            out[i] = 0.0
+    return out
+
+
 def advertised(groups):
     """Pool bounds as advertised (per group max/min of aggregated battery vs summed inverter bounds)."""
     il = sum(max(d["bat"][0], sum(i[0] for i in d["invs"])) for _, _, d in groups)
@@ -81,6 +97,36 @@ def advertised(groups):
     eu = sum(max(d["bat"][2], sum(i[2] for i in d["invs"])) for _, _, d in groups)
     iu = sum(min(d["bat"][3], sum(i[3] for i in d["invs"])) for _, _, d in groups)
     return il, el, eu, iu
+
+
+def pinned_algorithm():
+    """The distribution algorithm exactly as in the pinned tree (a verbatim copy of the file, kept under
+    /verif/known/): it defines WHAT the recorded known findings are - a deviation of the real code counts as one of
+    them only if the real code still computes what the pinned algorithm computes on that input."""
+    import importlib.util
+    import os
+    pkg = "frequenz.sdk.microgrid._power_distributing._distribution_algorithm"
+    name = pkg + "._pinned_for_known_findings"
+    if name in sys.modules:
+        return sys.modules[name].BatteryDistributionAlgorithm
+    path = os.path.join(os.path.dirname(os.path.dirname(os.path.abspath(__file__))), "known",
+                        "pinned_battery_distribution_algorithm.py.txt")
+    import importlib.machinery
+    loader = importlib.machinery.SourceFileLoader(name, path)
+    spec = importlib.util.spec_from_loader(name, loader)
+    mod = importlib.util.module_from_spec(spec)
+    mod.__package__ = pkg
+    sys.modules[name] = mod
+    loader.exec_module(mod)
+    return mod.BatteryDistributionAlgorithm
+
+
+def same_result(a, b, scale):
+    if a is None or b is None:
+        return False
+    keys = set(a.distribution) | set(b.distribution)
+    return (all(abs(a.distribution.get(k, 0.0) - b.distribution.get(k, 0.0)) <= TOL * scale for k in keys)
+            and abs(a.remaining_power - b.remaining_power) <= TOL * scale)
 
 
 class Trace:
@@ -115,7 +161,14 @@ def check(groups, exponent, power, res, tr, split_log, prop=None):
     scale = max(1.0, mag)
     total = sum(dist.values())
     # ---- C01
-    lost_in_split = any(abs(sum(out.values()) - p) > TOL * scale for p, out in split_log)
+    # known finding C01-B is the loss the documented greedy split produces (same iteration order): a split that loses
+    # power in any other way is a new violation, not the known one
+    lost_in_split = any(abs(sum(out.values()) - p) > TOL * scale for p, out, _ in split_log)
+    split_as_documented = all(all(abs(out[i] - ref[i]) <= TOL * scale for i in out) for _, out, ref in split_log)
+    if lost_in_split and not split_as_documented:
+        p, out, ref = next((p, o, r) for p, o, r in split_log if any(abs(o[i] - r[i]) > TOL * scale for i in o))
+        return (f"a set's share {p} was split as {out}; the documented greedy split (known finding C01-B) gives {ref}: "
+                f"power is lost in a way the known finding does not cover"), None
     if prop != "C02" and abs(total + rem - power) > TOL * scale:
         fid = "C01-A-deficit-branch" if tr.hit_deficit else ("C01-B-split-drops-power" if lost_in_split else None)
         return f"set-points {total} + remainder {rem} != request {power}", fid
@@ -184,7 +237,7 @@ def run(req):
                 before = {k: v.power for k, v in distribution.items()}
                 out = _orig(distribution, excl_bounds, incl_bounds)
                 for ids, p in before.items():
-                    _log.append((p, {i: out.get(i, 0.0) for i in ids}))
+                    _log.append((p, {i: out.get(i, 0.0) for i in ids}, reference_split(p, list(ids), excl_bounds, incl_bounds)))
                 return out
             algo._distribute_multi_inverter_pairs = wrapped  # pylint: disable=protected-access
             tr = Trace()
@@ -203,6 +256,18 @@ def run(req):
                 samples.append({"groups": [[b, i, d] for b, i, d in groups], "exponent": exponent, "power": power,
                                 "distribution": dict(res.distribution), "remaining": res.remaining_power})
             f, fid = check(groups, exponent, power, res, tr, split_log, req.get("prop"))
+            if f and fid is not None:
+                # a listed finding only if the real code still does what the pinned algorithm does on this input
+                try:
+                    ref = pinned_algorithm()(distributor_exponent=exponent).distribute_power(
+                        power, [make_pair(b, invs, d) for b, invs, d in groups])
+                except Exception:  # pylint: disable=broad-except
+                    ref = None
+                if not same_result(res, ref, max(1.0, abs(power))):
+                    f = (f + f"; the pinned algorithm (which defines known finding {fid}) gives "
+                         f"{dict(ref.distribution) if ref else None} / remainder {ref.remaining_power if ref else None} "
+                         f"on this input: this is a different failure")
+                    fid = None
             if f:
                 if fid is not None:
                     known.setdefault(fid, f"{f} (exponent {exponent}, request {power}, groups {[(b, i, d) for b, i, d in groups]})"[:600])
